@@ -202,7 +202,7 @@ ADDED = {
 # session 6
 ADDED6 = {
  "C03": ("; the xmm6int Salsa20 SSE2 / AVX2 code (u0/u1/u4/u8, diagonal state layout) modelled and proved = reference = specification keystream",
-         " The vectorised Salsa20 code (salsa20_xmm6int-sse2.c / -avx2.c with u0 / u1 / u4 / u8.h: diagonal state layout, 64-bit counter lanes with carry inside and between batches, in-place bodies, tails) is modelled from the header text and proved equal to the reference model and the Salsa20 / XSalsa20 specification for every key, nonce, counter and length (Properties/C03SalsaSimd, 41 theorems); the driver cross-runs it on every Salsa20 op; the six files are pinned. The xmm6 ASSEMBLY backend is translated from the current .S text into an instruction array for an x86-64 + SSE2 interpreter (Model/X86Sse.lean) on every run and cross-run by the driver on every Salsa20 / XSalsa20 op up to 1100 bytes; when the text changes the driver is rebuilt against the regenerated array and a directed op set (counters around 2^32 and 2^64, every path and tail) searched for a failing input; no semantic theorem about the assembly is proved yet (structural theorems only)."),
+         " The vectorised Salsa20 code (salsa20_xmm6int-sse2.c / -avx2.c with u0 / u1 / u4 / u8.h: diagonal state layout, 64-bit counter lanes with carry inside and between batches, in-place bodies, tails) is modelled from the header text and proved equal to the reference model and the Salsa20 / XSalsa20 specification for every key, nonce, counter and length (Properties/C03SalsaSimd, 41 theorems); the driver cross-runs it on every Salsa20 op; the six files are pinned. The xmm6 ASSEMBLY backend is translated from the current .S text into an instruction array for an x86-64 + SSE2 interpreter (Model/X86Sse.lean) on every run and cross-run by the driver on every Salsa20 / XSalsa20 op up to 1100 bytes; when the text changes the driver is rebuilt against the regenerated array and a directed op set (counters around 2^32 and 2^64, every path and tail) searched for a failing input; proved so far (Properties/C03Asm2): the prologue, for every memory content, counter and length, leaves the diagonal-layout state with both counter words correct (this theorem fails to re-check on seeded C03-6), and the 20-round loop equals the specification's double rounds; the feed-forward / XOR / stores / counter increment, the 4-block path and tails rest on the cross-run."),
  "C06": ("; statement-order model of seed_keypair / detached sign (incl. Ed25519ph) / verify_detached assembled from the proved pieces: verifier returns 0 iff the strict conditions hold, decoding / encoding = RFC 8032 (two lax-decoding deviations kernel-checked), sign = RFC 8032 and sign-then-verify = 0 under CurveGroup + Faithful",
          " Ed25519 end to end (Properties/C06Full, C06Full2, C06Full3; 38 theorems): the statement-order models of keypair.c / sign.c / open.c are assembled from the proved SHA-512, sc25519 and ge25519 models and run by the driver; `verify_returns_zero_iff` (S canonical, A canonical / decodable / not small order, R decodable / not small order, the code's final small-order test); ge25519_frombytes (both forms) = lax RFC 8032 decoding with the root selection proved equal to the RFC's, p3_tobytes / tobytes = encoding, decode of encode = id; key generation and signing equal Spec.Ed25519 byte for byte and every honest signature verifies, under the explicit hypotheses CurveGroup + Faithful + [L]B = 0 (facts about edwards25519) and the side condition that R and A pass the small-order tests; the verifier's final comparison is characterised exactly (4*Delta = 0 up to a spoiled-denominator disjunct), neither the cofactorless nor the 8-cofactored equation. The function bodies are pinned."),
  "C08": ("; the SSE2 scrypt core and both escrypt_kdf functions proved = RFC 7914 end to end",
@@ -216,9 +216,9 @@ ADDED6 = {
  "C20": ("; Tie B: allocation skeletons of 28 entry points regenerated from the clang AST on every run, fail-closed decided by the kernel for each and lifted to every oracle",
          " Tie B (tools/c2lean_alloc.py -> Generated/AllocProgs.lean): the allocation skeleton (every malloc / calloc / mmap / free / munmap, the tests of their results, assignments to struct fields, early returns with their value class, every other condition abstracted as a named boolean input) of 28 entry points of argon2.c, argon2-core.c, pwhash_argon2i(d).c, the scrypt files and utils.c is regenerated on every run as a term of a small deep-embedded language; `goodAll` explores both answers at every request and every abstracted condition and is decided by the kernel for each entry; `fail_closed_of_goodAll` lifts it to every oracle Nat -> Bool and every valuation; the generated programs are proved observationally equal to the hand-written ones of Model/Fault.lean (Properties/C20Gen, 45 theorems). On a failing obligation the tool prints the fault schedule (oracle prefix, named inputs, event trace) as the replay."),
  "C05": ("; sandy2x scalar assembly (fe51_pack / fe51_mul / fe51_nsquare) translated from the .S text into an x86-64 interpreter model on every run, driver cross-runs it; constructed boundary outputs",
-         " The scalar assembly files of the sandy2x backend are inside the model through a translator: tools/asm2lean.py turns the current .S text into instruction lists for the x86-64 interpreter of Model/X86Scalar.lean (registers, flags with definedness tracking, byte memory; refuses unknown mnemonics), regenerated on every run; the driver runs every X25519 op's final limb vector through the generated fe51_pack / fe51_mul / fe51_nsquare and compares with the limb model; the reduce loop of fe51_pack is proved for all inputs (three passes, no 64-bit wrap, limbs below 2^51, value preserved mod 2^255-19; Properties/C05Asm) — the conditional subtraction, the byte stores, fe51_mul and fe51_nsquare are NOT proved and rest on the cross-run; ladder.S (AVX) is not modelled. The generator constructs 1359 (scalar, point) pairs whose shared secret is a small integer / at the reduction and limb-packing boundaries, on curve and twist."),
+         " The scalar assembly files of the sandy2x backend are inside the model through a translator: tools/asm2lean.py turns the current .S text into instruction lists for the x86-64 interpreter of Model/X86Scalar.lean (registers, flags with definedness tracking, byte memory; refuses unknown mnemonics), regenerated on every run; the driver runs every X25519 op's final limb vector through the generated fe51_pack / fe51_mul / fe51_nsquare and compares with the limb model; of fe51_pack the reduce loop (three passes, no 64-bit wrap, limbs below 2^51, value preserved mod 2^255-19), the freeze (conditional subtraction of p) and the 137 byte stores with every stored byte's value are proved for all inputs (Properties/C05Asm, C05Asm2) — the final digit sum, the prologue / epilogue memory frame, fe51_mul and fe51_nsquare are NOT proved and rest on the cross-run; ladder.S (AVX) is not modelled. The generator constructs 1359 (scalar, point) pairs whose shared secret is a small integer / at the reduction and limb-packing boundaries, on curve and twist."),
  "C13": ("; memory-level statement-order models of every AEAD's in-place loops proved = disjoint = functional model",
-         " Properties/C13Aead (34 theorems): the ChaCha20-Poly1305 family (original, IETF, XChaCha; any chunking of the stream XOR; the order MAC-over-ciphertext / XOR as written), the AEGIS-128L / 256 block loops and the AES-256-GCM loop shapes (2x7 pipeline, 7 / 4 / 2 / 1-block loops, tail) are modelled as loads and stores on the flat memory in the order of the C statements and proved, for identical (or output-before-input / disjoint) pointers, to store exactly the functional model's output and reach its verdict, with the failure path zeroing the output; for AES-256-GCM the generic theorem carries a load-before-overwriting-store schedule check that the kernel discharges for every length below 1024 (the induction over the loops for arbitrary length is not done); partial-overlap counterexamples mark the boundary of the guarantee. The driver recomputes every identical-pointer AEAD op at memory level."),
+         " Properties/C13Aead, C13Aead2 (51 theorems): the ChaCha20-Poly1305 family (original, IETF, XChaCha; any chunking of the stream XOR; the order MAC-over-ciphertext / XOR as written), the AEGIS-128L / 256 block loops and the AES-256-GCM loop shapes (2x7 pipeline, 7 / 4 / 2 / 1-block loops, tail) are modelled as loads and stores on the flat memory in the order of the C statements and proved, for identical (or output-before-input / disjoint) pointers, to store exactly the functional model's output and reach its verdict, with the failure path zeroing the output; for AES-256-GCM the load-before-overwriting-store schedule check is proved for EVERY length by one generic loop lemma over the stage decomposition (C13Aead2; the kernel-evaluated statement below 1024 is kept as a regression example), and the whole detached functions (AD, tag, limits path, 0xd0 fill) are modelled at memory level over abstract primitives; partial-overlap counterexamples mark the boundary of the guarantee. The driver recomputes every identical-pointer AEAD op at memory level."),
  "C10": ("; C10 inherits the pins and cross-backend theorems of the AEGIS / softaes models; long-operand implementation-vs-implementation ops",
          " C10 now fails when the pinned AEGIS / softaes / AES-GCM sources change (its cross-backend claim for them rests on the proved models: aesni_eq_soft etc., 24 theorems added to its audit), and compares backends on operands of 2^20 bytes (quick) and 2^29 .. 2^29+33 bytes (thorough) built inside the harness."),
  "C01": ("; box (easy = detached = afternm) and sealed boxes in both cipher variants compared with the specification under a scripted ephemeral key",
